@@ -785,7 +785,7 @@ func vC16Trim(s string, n int) string {
 func TestVerif_C16_safety(t *testing.T) {
 	vC16StartRealClock()
 	vh.Run(t, vh.Spec{Prop: "C16", Unit: "safety", Quick: 240, Thorough: 8000, CostMs: 8,
-		Rule:    "two case kinds. ctor (1/3): NewFullRT on a fake host with a PRNG subset of construction options missing (BootstrapPeers, BucketSize, Validator, crawler, limit, message sender), called under recover, then closed. ops (2/3): an instance whose table stays empty (crawler reporting nothing / only failures / only peers the public filter drops / default crawler with unreachable bootstrap peers; options missing at random; providers or values disabled in some cases) is sent every single and bulk operation (GetClosestPeers, FindPeer, GetValue, SearchValue, PutValue, Provide, FindProviders(Async), ProvideMany, PutMany incl. zero keys and mismatched lengths, CheckPeers, Bootstrap, Ready, Stat) in PRNG order inside a virtual-time bubble, each under recover; a dedicated 1/24 of the ops cases omits BucketSize on a NON-empty table; non-trivial = at least 10 operations returned; distinct by (kind, options, order)",
+		Rule:    "two case kinds. ctor (1/3): NewFullRT on a fake host with a PRNG subset of construction options missing (BootstrapPeers, BucketSize, Validator, crawler, limit, message sender), called under recover, then closed. ops (2/3): an instance whose table stays empty (crawler reporting nothing / only failures / only peers the public filter drops / default crawler with unreachable bootstrap peers; options missing at random; providers or values disabled in some cases) is sent every single and bulk operation (GetClosestPeers, FindPeer, GetValue, SearchValue, PutValue, Provide, FindProviders(Async), ProvideMany, PutMany incl. zero keys and mismatched lengths, CheckPeers, Bootstrap, Ready, Stat) in PRNG order inside a virtual-time bubble, each under recover; a dedicated 1/24 of the ops cases omits BucketSize on a NON-empty table, another 1/24 runs all operations with K=1 and 1-2 bulk keys on a NON-empty table of 5-34 peers (bulk chunk size rounding to zero), judged for panics and promptness; non-trivial = at least 10 operations returned; distinct by (kind, options, order)",
 		Clauses: []string{"ctor-no-panic", "no-panic", "returns-promptly", "store-on-empty-table-errors", "lookup-on-empty-table-errors", "empty-table-error-or-empty", "channel-closed", "close-returns"}},
 		func(c *vh.Case) {
 			r := c.R
@@ -860,7 +860,14 @@ func vC16SafetyOps(t *testing.T, c *vh.Case, self peer.ID) {
 	useValidator := r.Intn(4) != 0
 	disable := []string{"", "", "", "providers", "values"}[r.Intn(5)]
 	crawlerKind := []string{"nothing", "failures", "filtered", "default"}[r.Intn(4)]
-	nonEmptyNoK := r.Intn(24) == 0
+	classDraw := r.Intn(24)
+	nonEmptyNoK := classDraw == 0
+	// a populated table with every option present and so few keys that the bulk chunk size
+	// (keys * 2K / table size) rounds down to zero: judged for panics and promptness only
+	nonEmptySmallK := classDraw == 1
+	if nonEmptySmallK {
+		cfg.K, cfg.NoBucketSize, crawlerKind, disable = 1, false, "members", ""
+	}
 	if nonEmptyNoK {
 		cfg.NoBucketSize, crawlerKind, disable = true, "members", ""
 		if r.Intn(2) == 0 {
@@ -869,6 +876,9 @@ func vC16SafetyOps(t *testing.T, c *vh.Case, self peer.ID) {
 	}
 	order := r.Perm(17)
 	nKeys := 1 + r.Intn(20)
+	if nonEmptySmallK {
+		nKeys = 1 + nKeys%2 // 2 * K * keys <= 4 < 5 <= table size
+	}
 	c.Set("kind", "ops")
 	c.Set("options", fmt.Sprintf("K=%d bucketsize-missing=%v limit-missing=%v limit=%d validator=%v disabled=%q crawler=%s bulkpar=%d", cfg.K, cfg.NoBucketSize, cfg.NoLimitOpt, cfg.Limit, useValidator, disable, crawlerKind, cfg.BulkPar))
 	returned := 0
@@ -928,7 +938,7 @@ func vC16SafetyOps(t *testing.T, c *vh.Case, self peer.ID) {
 		time.Sleep(30 * time.Second) // the initial crawl (dial timeouts of dead bootstrap peers included) is over
 		synctest.Wait()
 		tableEmpty := len(d.Stat()) == 0
-		if !nonEmptyNoK && !tableEmpty {
+		if !nonEmptyNoK && !nonEmptySmallK && !tableEmpty {
 			c.Fail("harness-table-not-empty", "table has %d peers", len(d.Stat()))
 			return
 		}
